@@ -310,9 +310,18 @@ def _unspellable(F, text):
         return True
     body = f["hir"]["value"]
     pm = parent_map(body)
+    # the test of the first character: `let first = s.chars().next()..; if !is_label_start(first) { return Err(()) }`
+    firsts = {st["pat"]["name"] for st in walk(body, pats=False) if st.get("k") == "Let" and st["pat"].get("k") == "PBinding" and st.get("init") is not None
+              and any(y.get("k") == "MethodCall" and y["name"] == "next" and any(z.get("k") == "MethodCall" and z["name"] == "chars" for z in walk(y["recv"], pats=False)) for y in walk(st["init"], pats=False))
+              and not any(y.get("k") == "MethodCall" and y["name"] in ("skip", "rev", "nth", "last") for y in walk(st["init"], pats=False))}
+    for iff in walk(body, pats=False):
+        if iff.get("k") == "If" and any(c.get("k") == "Call" and short(callee_of(c) or "") == "Err" for c in walk(iff["then"], pats=False)):
+            for nm in firsts:
+                if any(y.get("k") == "Path" and y.get("res") == nm for y in walk(iff["cond"], pats=False)) and _char_pred(iff["cond"], nm, text[0], F) is True:
+                    return True
     for m in walk(body, pats=False):
-        if m.get("k") == "MethodCall" and m["name"] in ("all", "any") and m["args"] and peel(m["args"][0]).get("k") == "Closure":
-            cl = peel(m["args"][0])
+        if m.get("k") == "MethodCall" and m["name"] in ("all", "any") and m["args"] and closure_like(F, m["args"][0]) is not None:
+            cl = closure_like(F, m["args"][0])     # a closure, or a named predicate (`.all(is_label_char)`)
             pn = [b_["name"] for p_ in cl.get("params", []) for b_ in walk(p_) if b_.get("k") == "PBinding"]
             if len(pn) != 1:
                 return False
@@ -387,7 +396,9 @@ def _char_pred(e, pn, ch, F=None, depth=0):
     if k == "MethodCall" and peel(e["recv"]).get("res") == pn and not e["args"]:
         table = {"is_ascii_digit": ch.isascii() and ch.isdigit(), "is_alphabetic": ch.isalpha(), "is_alphanumeric": ch.isalnum(),
                  "is_ascii_alphabetic": ch.isascii() and ch.isalpha(), "is_ascii_alphanumeric": ch.isascii() and ch.isalnum(),
-                 "is_ascii_lowercase": ch.isascii() and ch.islower(), "is_ascii_uppercase": ch.isascii() and ch.isupper()}
+                 "is_ascii_lowercase": ch.isascii() and ch.islower(), "is_ascii_uppercase": ch.isascii() and ch.isupper(),
+                 "is_ascii_graphic": "!" <= ch <= "~", "is_ascii_punctuation": "!" <= ch <= "~" and not ch.isalnum(), "is_ascii": ch.isascii(),
+                 "is_whitespace": ch.isspace(), "is_ascii_whitespace": ch in " \t\n\x0c\r", "is_numeric": ch.isnumeric()}
         return table.get(e["name"])
     return None
 
